@@ -40,6 +40,9 @@ DESCR_KINDS = ['update_alert_condition_source', 'update_alert_signal_condition_s
                'create_two_children_of_one_parent', 'update_parent_then_create_child', 'delete_two_children_of_one_parent',
                'create_child_then_update_parent', 'entity_write_context_descriptor_with_new_state',
                'update_context_descriptor_and_add_state', 'entity_write_metric_descriptor_and_state']
+TX_NAMES = ['metric_m0', 'metric_m1', 'alert', 'component', 'operational', 'context_new', 'context_update', 'context_two',
+            'set_location', 'upd_source', 'upd_condition_signaled', 'upd_metric_descr+state', 'create_metric', 'delete_leaf',
+            'delete_subtree', 'upd_context_descr', 'create_channel+child', 'create_two_children', 'delete_context_descriptor']
 SYM = 'symbolic: DescriptorVersion, StateVersion, MdibVersion, context StateVersion in N (unconstrained); str payload <= 3 chars; '
 
 
@@ -62,10 +65,7 @@ def obligations(tier):
                       're-create/delete/update), mirror compared after each',
                       claim='mirror after every prefix of a 2-transaction history incl. delete -> re-create with greater versions'))
     if tier == 'thorough':
-        codes = ['metric_m0', 'metric_m1', 'alert', 'component', 'operational', 'context_new', 'context_update', 'context_two',
-                 'set_location', 'upd_source', 'upd_condition_signaled', 'upd_metric_descr+state', 'create_metric', 'delete_leaf',
-                 'delete_subtree', 'upd_context_descr', 'create_channel+child', 'create_two_children', 'delete_context_descriptor']
-        for c1, name in enumerate(codes):
+        for c1, name in enumerate(TX_NAMES):
             obs.append(Ob(f'C01.seq.{name}.then_any', 'harness.C01', 'mirror_two_kinds', bind={'c1': c1}, timeout=1200, functions=F,
                           stubs=STUBS, twin=False,
                           bounds=SYM + f'first transaction "{name}", second transaction ANY of the 19 kinds (symbolic); mirror compared '
@@ -78,6 +78,29 @@ def obligations(tier):
                   bounds='1 reload_all (initial load) thread x 1 report thread; all interleavings of the recorded lock / _state / buffer '
                          'events consistent with the recorded _state values (engine E3, shared with C06)',
                   claim='a report delivered while the consumer initialises is never lost (it is buffered and replayed, or applied)'))
+    from harness import loopkit
+    wire_stubs = loopkit.STUBS + ['kit MDIB (15 descriptors, 3 context states) completed with the schema-mandatory members, loaded by the '
+                                  'provider from its XML form; payload strings from a pool of 3 (plain, XML-special, non-ASCII): lxml '
+                                  'needs concrete data; library calls run with real interpreter semantics (selector enumeration by '
+                                  'the solver)']
+    wire_f = F + ['sdc11073.pysoap.msgfactory.MessageFactory.serialize_message', 'sdc11073.pysoap.msgreader.MessageReader.read_received_message',
+                  'sdc11073.mdib.consumermdibxtra.ConsumerMdibMethods._on_episodic_metric_report',
+                  'sdc11073.provider.subscriptionmgr_base.SubscriptionsManagerBase.send_to_subscribers']
+    if tier == 'quick':
+        for part, codes in (('state_kinds', 'c1 in 0..8'), ('descriptor_kinds', 'c1 in 9..18')):
+            obs.append(Ob(f'C01.wire.one.{part}', 'harness.C01_wire', 'wire_one_' + part, timeout=t, functions=wire_f, stubs=wire_stubs,
+                          bounds=f'1 transaction ({codes} of the 19 kinds) x 3 payloads x flag x 4 selector values; REAL provider, port '
+                                 'types, MessageFactory + schema validation, loop-back transport, consumer dispatch, MessageReader + '
+                                 'schema validation, ConsumerMdib',
+                          claim='the consumer MDIB that received the reports as validated XML equals the provider MDIB (content, versions, '
+                                'indices) - closes the identity-XML stub of the C01.state / C01.descr obligations'))
+    else:
+        for i, name in enumerate(TX_NAMES):
+            obs.append(Ob(f'C01.wire.two.{name}', 'harness.C01_wire', 'wire_two_kinds', bind={'c1': i}, timeout=t, functions=wire_f,
+                          stubs=wire_stubs,
+                          bounds=f'first transaction "{name}", second ANY of the 19 kinds, x 3 payloads x flag x 4 selector values; real '
+                                 'XML wire with schema validation on both sides',
+                          claim='mirror over the real wire after each of two transactions'))
     from checks import C07
     for kd in (('metric', 'descriptor') if tier == 'quick' else ('metric', 'context', 'descriptor', 'alert', 'component')):
         obs.append(Ob(f'C01.e3.initial_snapshot.vs.{kd}', 'checks.C07', 'ob_snapshot', kind='py', timeout=240,
